@@ -105,6 +105,7 @@ bool Alarm::disable() {
   if (state_ == State::kRunning) {
     if (onDisable()) {
       state_ = State::kInited;
+      target_utc_sec_ = 0;  //! 同refresh()，如果不清0，那么 disable() 后再 enable() 会跳过最近的一个时间点
       return sp_timer_ev_->disable();
     }
   }
